@@ -108,3 +108,15 @@ silent("C70", "none-branch-raises-for-anything-unhandled",
                           "                    raise DeviceError(f\"{op.name} cannot be simulated by default.clifford here.\")\n")])
 silent("C70", "predicate-membership-in-keys",
        [(DC, "    return op.name in _OPERATIONS_MAP\n", "    return op.name in _OPERATIONS_MAP.keys()\n")])
+
+# --- R-C70-shared
+_DC = "pennylane/devices/default_clifford.py"
+fire("C70", "projector-sampling-appends-to-the-shared-circuit",
+     (_DC, "            stim_circ = stim_circuit.copy()\n            stim_circ.append_from_stim_program_text(\"M \" + \" \".join(map(str, meas_obs.wires)))\n            sampler = stim_circ.compile_sampler(seed=sample_seed)",
+           "            stim_circuit.append_from_stim_program_text(\"M \" + \" \".join(map(str, meas_obs.wires)))\n            sampler = stim_circuit.compile_sampler(seed=sample_seed)"),
+     "R-C70-shared", "_measure_observable_sample")
+fire("C70", "probability-diagonalisation-appends-to-the-circuit-from-kwargs",
+     (_DC, "        diagonalizing_cit = kwargs.get(\"stim_circuit\").copy()", "        diagonalizing_cit = kwargs.get(\"stim_circuit\")"),
+     "R-C70-shared", "_measure_probability")
+silent("C70", "projector-sampling-copies-with-the-copy-module",
+       [(_DC, "            stim_circ = stim_circuit.copy()\n            stim_circ.append_from_stim_program_text(\"M \"", "            stim_circ = stim_circuit.copy()\n            stim_circ = stim_circ.copy()\n            stim_circ.append_from_stim_program_text(\"M \"")])
